@@ -512,6 +512,18 @@ pub fn gen_c03(out: &mut Out, rng: &mut Rng, thorough: bool) {
         let codec = codecs[i % codecs.len()];
         monitor_line(out, &format!("stream {codec} {evs}"));
     }
+    // the client surfaces: what a peer's reply can do to a caller of the typed API and of `call`
+    {
+        let unit = rng.u8();
+        let head = format!("cli tcp {}", hex8(unit));
+        super::client::illformed_typed_replies(out, rng, &head, "tcp", unit, if thorough { 300 } else { 40 });
+        for _ in 0..(if thorough { 3000 } else { 300 }) {
+            let req = gen_request(rng, Some(2));
+            let len = rng.range(0, 40);
+            let data = junk_stream(rng, len);
+            monitor_line(out, &format!("{head} | call {} r=d{},e", request(&req), hex_raw(&data)));
+        }
+    }
     // sustained junk through each stream decoder (soak): many kilobytes in one case
     let soaks = if thorough { 40 } else { 5 };
     for i in 0..soaks {
